@@ -16,7 +16,8 @@
     [a_lo, a_hi] of child heights at which the transaction can be valid.
 
     The ledger at the tip is the set of unspent elements with their leaf indices, the
-    number of leaves of the accumulator, and the tip height. *)
+    number of leaves of the accumulator, the tip height, and the revision numbers of the
+    contracts. *)
 From Coq Require Import NArith List.
 From stdpp Require Import gmap.
 Import ListNotations.
@@ -29,7 +30,7 @@ Inductive role := RSpend | RRevise | RRef.
 #[global] Instance role_eq_dec : EqDecision role.
 Proof. solve_decision. Defined.
 
-Record ain := AIn { i_el : N; i_role : role; i_leaf : N; i_pok : bool }.
+Record ain := AIn { i_el : N; i_role : role; i_leaf : N; i_pok : bool; i_rev : N }.
 #[global] Instance ain_eq_dec : EqDecision ain.
 Proof. solve_decision. Defined.
 
@@ -41,7 +42,7 @@ Record atx := ATx {
 #[global] Instance atx_eq_dec : EqDecision atx.
 Proof. solve_decision. Defined.
 
-Record ledger := LG { l_el : gmap N N; l_num : N; l_h : N }.
+Record ledger := LG { l_el : gmap N N; l_num : N; l_h : N; l_rev : gmap N N }.
 
 Definition cls (el : N) : N := el mod 4.
 Definition is_eph (i : ain) : bool := i_leaf i =? unassigned.
@@ -76,10 +77,19 @@ Definition avail (L : ledger) (m : mids) (v2 : bool) (i : ain) : bool :=
     else present L i
   else bool_decide (is_Some (l_el L !! i_el i)) || bool_decide (i_el i ∈ m_cr m).
 
+(** a revision must carry a higher revision number than the contract has in the ledger
+    (validation.go:271-283, 756-790); revisions of one contract by several pooled
+    transactions are not ordered by the model *)
+Definition rev_ok (L : ledger) (i : ain) : bool :=
+  match i_role i with
+  | RRevise => default 0 (l_rev L !! i_el i) <? i_rev i
+  | _ => true
+  end.
+
 Definition check_in (L : ledger) (m : mids) (v2 : bool) (i : ain) : bool :=
   match i_role i with
   | RRef => negb (is_eph i) && present L i
-  | _ => negb (bool_decide (i_el i ∈ m_sp m)) && avail L m v2 i
+  | _ => negb (bool_decide (i_el i ∈ m_sp m)) && avail L m v2 i && rev_ok L i
   end.
 
 Definition touched (t : atx) : list N := map i_el (List.filter (λ i, negb (is_ref i)) (a_ins t)).
@@ -286,7 +296,7 @@ Definition add_v2_prefix (L : ledger) (mw : N) (p : pool) (set : option (list at
   match set with None => (p, VErr) | Some s => add_core true L true p s end.
 
 (** ** Block steps (manager.go:827-853, 897-1011, 496-537) *)
-Definition set_leaf (i : ain) (lf : N) (ok : bool) : ain := AIn (i_el i) (i_role i) lf ok.
+Definition set_leaf (i : ain) (lf : N) (ok : bool) : ain := AIn (i_el i) (i_role i) lf ok (i_rev i).
 Definition map_ins (f : ain → ain) (t : atx) : atx :=
   ATx (a_id t) (a_v2 t) (map f (a_ins t)) (a_outs t) (a_fee t) (a_weight t) (a_lo t) (a_hi t) (a_feeless t).
 
@@ -406,25 +416,36 @@ Definition add_parents (pm : gmap N nat) (pool_l : list atx) (seen : list nat) (
                  end) (Some (seen, acc)) (a_ins t).
 
 Fixpoint parents_fix (fuel : nat) (pm : gmap N nat) (pool_l : list atx) (seen : list nat) (acc : list atx)
-  : option (list atx) :=
+  : option (list nat * list atx) :=
   match fuel with
-  | O => Some acc
+  | O => None (* unreachable: every productive pass adds a new pool position (RebaseProofs) *)
   | S f =>
       match foldl (λ st u, match st with None => None | Some (s, a) => add_parents pm pool_l s a u end)
                   (Some (seen, acc)) acc with
       | None => None
-      | Some (seen', acc') => if Nat.eqb (length acc') (length acc) then Some acc
+      | Some (seen', acc') => if Nat.eqb (length acc') (length acc) then Some (seen, acc)
                               else parents_fix f pm pool_l seen' acc'
       end
   end.
 
-(** the parents of [t] in pool slice [pool_l], parents first (the reversal at the end) *)
-Definition unconfirmed_parents (pm : gmap N nat) (pool_l : list atx) (t : atx) : pres :=
+(** keeps the members of [l] whose position is in [seen], in pool order *)
+Fixpoint at_positions (seen : list nat) (n : nat) (l : list atx) : list atx :=
+  match l with
+  | [] => []
+  | t :: r => if bool_decide (n ∈ seen) then t :: at_positions seen (S n) r else at_positions seen (S n) r
+  end.
+
+(** the pooled ancestors of [t] in slice [pool_l], repaired: ordered by pool position (the
+    pool is in dependency order).  [pre = true]: before the repair the breadth-first discovery
+    order was reversed, which can put a descendant before its ancestor (finding F20). *)
+Definition unconfirmed_parents_gen (pre : bool) (pm : gmap N nat) (pool_l : list atx) (t : atx) : pres :=
   match add_parents pm pool_l [] [] t with
   | None => PPanic
   | Some (seen, acc) =>
-      match parents_fix (S (length pool_l)) pm pool_l seen acc with
+      match parents_fix (S (S (length pool_l))) pm pool_l seen acc with
       | None => PPanic
-      | Some l => PList (rev l)
+      | Some (seen', l) => if pre then PList (rev l) else PList (at_positions seen' 0 pool_l)
       end
   end.
+Definition unconfirmed_parents := unconfirmed_parents_gen false.
+Definition unconfirmed_parents_prefix := unconfirmed_parents_gen true.
